@@ -11,6 +11,12 @@ CLAIMED = {
     "C09": dict(cat="model_checking", tech="caret-in-screen / fixed-grid invariants evaluated by TLC on the recorded geometry after every character (Trace_Term)",
                 text="After every character of every generated stream (until a resize request) the recorded caret, terminal size and buffer size must satisfy CaretInScreen, and Viewdata/Mode 7 the fixed 40x24 grid; evaluated by TLC on traces of the real engine. Bounded/sampled exploration of the input space.",
                 note="geometry read through the public API after each character", ref="4/C09"),
+    "C12": dict(cat="model_checking", tech="TLA+ pixel model of the colour optimiser scan (ColorOpt.tla) model-checked over glyph/colour classes; TLC witnesses instantiated with real glyphs; rendered-image equality and per-cell rewrite rules validated by TLC on traces",
+                text="ColorOpt.tla defines Pixel/RenderEq and the optimiser as a scan carrying the previous attribute; TLC checks PixelsOk/OnlyAllowed for every carried-colour state x next-cell class; 9000 TLC witnesses are instantiated with real glyphs of built-in (and derived user) fonts, every glyph of all built-in fonts is swept, random 1-4 layer documents are optimised with both whitespace settings; the property layer is equality of the two render_to_rgba images and sizes, the model layer re-derives every rewrite.",
+                note="reference renderer = Buffer::render_to_rgba; direct RGB 0,0,0 (equals the transparent colour) and font pages without a font are outside the stated domain", ref="4/C12"),
+    "C13": dict(cat="model_checking", tech="declarative TLA+ definition of the shown cell (Layers.tla) with the stacking laws as relations; laws model-checked on per-position and geometry universes; TLC-exported (stack, transformation) cases replayed; laws judged between observed grids by TLC",
+                text="Layers.tla defines Shown(stack, pos) declaratively and the walk of Buffer::get_char; TLC checks every law L1..L7 for every transformation on <=3-4 layer universes and Shown = Walk; 61k TLC-exported cases plus seeded stacks (1-5 layers, all modes, transparent-colour cells) are replayed; the property layer compares the two OBSERVED grids under each law, the model layer compares every observed cell with Shown.",
+                note="non-terminal buffers, no overlay, default font page 0 (the statement does not speak about those)", ref="4/C13"),
     "C14": dict(cat="model_checking", tech="TLA+ queue model (SixelQueue) with independent Submit/Finish/Poll/Clear actions; every TLC behaviour enacted against the real Buffer through a cfg-guarded gate hook; traces validated by TLC; decoder character machine model (SixelDecoder)",
                 text="TLC explores every interleaving of submissions, completions, polls and clears for K<=4 images and checks arrival order / no loss / no duplicate / shadow rule / poll-never-waits on the model; every maximal behaviour is then enacted on the real engine (completion order forced through the gate) and each observed queue/layer state is judged by Trace_Sixel. Decoder payloads (all <=4-token payloads + seeded) are decoded by the real parser and judged Rectangular.",
                 note="completion order controlled by the gate hook; scheduling inside a decode not explored; K<=4", ref="4/C14"),
